@@ -794,7 +794,13 @@ func (w *_assemblerRepr) AssignBool(b bool) error {
 func (w *_assemblerRepr) assignUInt(uin datamodel.UintNode) error {
 	switch stg := reprStrategy(w.schemaType).(type) {
 	case schema.UnionRepresentation_Kinded:
-		return w.asKinded(stg, datamodel.Kind_Int).(*_assemblerRepr).assignUInt(uin)
+		switch asm := w.asKinded(stg, datamodel.Kind_Int).(type) {
+		case *_assemblerRepr:
+			return asm.assignUInt(uin)
+		default:
+			// no member of kind int: the error assembler reports that, as it does for AssignInt
+			return asm.AssignInt(0)
+		}
 	case schema.EnumRepresentation_Int:
 		uin, err := uin.AsUint()
 		if err != nil {
